@@ -1,61 +1,122 @@
 import ParryModel.Field
-import ParryModel.C08.Model
+import ParryModel.C08.Lemmas
 /-!
 # C08 property theorems: the QBVH stays valid under any history
 
-`Inv` is the structural invariant of the tree (a strengthening of the maintainers' `check_topology`); `Model.Qbvh.checkInv`
-is its executable form, evaluated by the oracle on every dumped Rust state.  All statements are about the model functions of
-`C08/Model.lean`.  The structural theorems hold for **every** scalar type `K` (no law of `K` is used, so they hold for the
-`Float` instance as well as for exact arithmetic); the box theorems are stated at the lawful instance `fieldNum K sq`.
+`Inv` (in `C08/Lemmas.lean`) is the structural invariant of the tree — a strengthening of the maintainers'
+`check_topology`; `Model.Qbvh.checkInv` is its executable form, evaluated by the oracle on every dumped Rust state.
+All statements are about the model functions of `C08/Model.lean`.  The structural theorems hold for **every** scalar
+type `K` (no law of `K` is used, so they hold for the `Float` instance as well as for exact arithmetic); the box
+theorems are stated at the lawful instance `fieldNum K sq`.
+
+`fixRoot = false` is the behaviour of the pinned tree, `fixRoot = true` the corrected root split; the structural
+theorems hold for both.
 -/
 namespace C08
 open Model Model.Qbvh
-variable {K : Type}
 
-def Live (q : Q K) (n : Nat) : Prop := n ∉ q.freeList
+section structural
+variable {K : Type} [Num K]
 
-structure Inv (q : Q K) : Prop where
-  root : q.nodes.size = 0 ∨ ((∃ r : Node K, q.nodes[0]? = some r ∧ r.leaf = false) ∧ Live q 0)
-  child : ∀ (n : Nat) (nd : Node K), q.nodes[n]? = some nd → Live q n → nd.leaf = false →
-    ∀ (l c : Nat), nd.children[l]? = some c → c ≠ MAXN →
-      c ≠ 0 ∧ Live q c ∧ ∃ cn : Node K, q.nodes[c]? = some cn ∧ cn.parent = n ∧ cn.plane = l
-  par : ∀ (n : Nat) (nd : Node K), q.nodes[n]? = some nd → Live q n → n ≠ 0 →
-    Live q nd.parent ∧ ∃ pn : Node K, q.nodes[nd.parent]? = some pn ∧ pn.leaf = false ∧ pn.children[nd.plane]? = some n
-  leafProxy : ∀ (n : Nat) (nd : Node K), q.nodes[n]? = some nd → Live q n → nd.leaf = true →
-    ∀ (l p : Nat), nd.children[l]? = some p → p ≠ MAXN →
-      ∃ pr : Proxy, q.proxies[p]? = some pr ∧ pr.node = n ∧ pr.lane = l
-  proxyLeaf : ∀ (p : Nat) (pr : Proxy), q.proxies[p]? = some pr → pr.node ≠ MAXN →
-    Live q pr.node ∧ ∃ nd : Node K, q.nodes[pr.node]? = some nd ∧ nd.leaf = true ∧ nd.children[pr.lane]? = some p
-  depth : ∃ d : Nat → Nat, d 0 = 0 ∧ ∀ (n : Nat) (nd : Node K), q.nodes[n]? = some nd → Live q n → n ≠ 0 →
-    d n = d nd.parent + 1
-  freeNodup : q.freeList.Nodup
-  small : q.nodes.size ≤ MAXN
+/-- the empty tree (`Qbvh::new()`) satisfies the invariant -/
+theorem empty_inv : Inv (Q.empty : Q K) := inv_empty
 
-theorem remove_preserves_inv (q q' : Q K) (id : Nat) (b : Bool) (h : Inv q) (hr : remove q id = some (q', b)) : Inv q' := by
-  unfold remove at hr
-  split at hr
-  · cases hr; exact h
-  · rename_i pr hpr
-    split at hr
-    · cases hr; exact h
-    · rename_i nd hnd
-      split at hr
-      · rename_i hl
-        cases hr
-        have hlt : pr.node < q.nodes.size := (Array.getElem?_eq_some_iff.mp hnd).1
-        have hne : pr.node ≠ MAXN := by have := h.small; omega
-        obtain ⟨hlive, nd', hnd', hleaf, hback⟩ := h.proxyLeaf id pr hpr hne
-        rw [hnd] at hnd'; cases hnd'
-        refine ⟨?_, ?_, ?_, ?_, ?_, ?_, ?_, ?_⟩
-        · have := h.root; simp [Live] at *; grind
-        · have := h.child; simp [Live] at *; grind
-        · have := h.par; simp [Live] at *; grind
-        · have := h.leafProxy; simp [Live] at *; grind
-        · have := h.proxyLeaf; have := h.leafProxy; simp [Live, invalidProxy] at *; grind
-        · obtain ⟨d, hd0, hd⟩ := h.depth
-          refine ⟨d, hd0, ?_⟩
-          simp [Live] at *; grind
-        · exact h.freeNodup
-        · have := h.small; simp; exact this
-      · cases hr
+/-- **`remove` preserves the invariant, for every state and every argument, and never panics.**
+(`b` is `is_some()` of the Rust return value.) -/
+theorem remove_preserves_inv (q : Q K) (id : Nat) (h : Inv q) :
+    ∃ (q' : Q K) (b : Bool), remove q id = some (q', b) ∧ Inv q' :=
+  let ⟨q', b, e, h', _⟩ := inv_remove q id h
+  ⟨q', b, e, h'⟩
+
+/-- **`pre_update_or_insert` preserves the invariant, for every state and every leaf id, on all three paths
+(update of an attached leaf, room under the root, root split), and never panics.**
+Hypotheses: the id is a real `u32` below the sentinel, and the node count stays below `u32::MAX` (the `as u32`
+truncations are not modelled). -/
+theorem preUpdateOrInsert_preserves_inv (fixRoot : Bool) (q : Q K) (id : Nat) (h : Inv q) (hid : id < MAXN)
+    (hsz : q.nodes.size + 8 ≤ MAXN) :
+    ∃ q' : Q K, preUpdateOrInsert fixRoot q id = some q' ∧ Inv q' :=
+  let ⟨q', e, h', _⟩ := inv_preUpdateOrInsert fixRoot q id h hid hsz
+  ⟨q', e, h'⟩
+
+/-- the third path in isolation: **the root split preserves the invariant** (the proxy being inserted is detached) -/
+theorem splitRoot_preserves_inv (fixRoot : Bool) (q q' : Q K) (id : Nat) (pr : Proxy) (h : Inv q)
+    (hpr : q.proxies[id]? = some pr) (hdet : pr.node = MAXN) (hsz : q.nodes.size + 2 ≤ MAXN)
+    (hs : splitRoot fixRoot q id = some q') : Inv q' :=
+  inv_splitRoot fixRoot q q' id pr h hpr hdet hsz hs
+
+/-- **`refit` does not alter the topology** ("This will not alter the topology of this `Qbvh`"): only boxes, the
+CHANGED/DIRTY flags and the work list change; in particular it preserves the invariant. -/
+theorem refit_preserves_inv (q : Q K) (cur : Nat → Aabb3 K) (margin : K) (r : Q K × Nat) (h : Inv q)
+    (hr : refit q cur margin = some r) : Inv r.1 ∧ TopoEq q r.1 :=
+  ⟨h.of_topoEq (topoEq_refit q cur margin r hr), topoEq_refit q cur margin r hr⟩
+
+/-- ids of a history are real `u32`s below the sentinel -/
+def OpOk : Op K → Prop
+  | .insert id _ => id < MAXN
+  | _ => True
+
+/-- one operation of a history preserves the invariant (node count grows by at most 8) -/
+theorem step_preserves_inv (fixRoot : Bool) (w w' : World K) (op : Op K) (h : Inv w.q) (hok : OpOk op)
+    (hsz : w.q.nodes.size + 8 ≤ MAXN) (hs : step fixRoot w op = some w') :
+    Inv w'.q ∧ w'.q.nodes.size ≤ w.q.nodes.size + 8 := by
+  cases op with
+  | insert id box =>
+    obtain ⟨q', e, h', hs'⟩ := inv_preUpdateOrInsert fixRoot w.q id h hok hsz
+    simp only [step, e, Option.map_some] at hs
+    cases hs; exact ⟨h', hs'⟩
+  | remove id =>
+    obtain ⟨q', b, e, h', hs'⟩ := inv_remove w.q id h
+    simp only [step, e, Option.map_some] at hs
+    cases hs; exact ⟨h', by simp [hs']⟩
+  | refit m =>
+    simp only [step] at hs
+    cases hr : refit w.q w.cur m with
+    | none => rw [hr] at hs; cases hs
+    | some r =>
+      rw [hr] at hs; simp only [Option.map_some] at hs; cases hs
+      have e := topoEq_refit w.q w.cur m r hr
+      exact ⟨h.of_topoEq e, by simp [e.size]⟩
+
+/-- **The invariant holds after every finite history** of `pre_update_or_insert` / `remove` / `refit` calls started from
+any state satisfying it (induction over the operation list); in particular from the empty tree.
+The size hypothesis says the history is shorter than `2^32 / 8` operations. -/
+theorem run_preserves_inv (fixRoot : Bool) (ops : List (Op K)) :
+    ∀ (w w' : World K), Inv w.q → (∀ op ∈ ops, OpOk op) → w.q.nodes.size + 8 * ops.length ≤ MAXN →
+      run fixRoot w ops = some w' → Inv w'.q := by
+  induction ops with
+  | nil => intro w w' h _ _ hr; simp only [run] at hr; cases hr; exact h
+  | cons op ops ih =>
+    intro w w' h hok hsz hr
+    simp only [List.length_cons] at hsz
+    simp only [run] at hr
+    cases hs : step fixRoot w op with
+    | none => rw [hs] at hr; cases hr
+    | some w1 =>
+      rw [hs] at hr
+      obtain ⟨h1, hsz1⟩ := step_preserves_inv fixRoot w w1 op h (hok op (by simp)) (by omega) hs
+      exact ih w1 w' h1 (fun o ho => hok o (by simp [ho])) (by omega) hr
+
+/-- a history can only stop early inside `refit` (fuel): `pre_update_or_insert` and `remove` steps never fail on a
+state satisfying the invariant -/
+theorem step_total (fixRoot : Bool) (w : World K) (op : Op K) (h : Inv w.q) (hok : OpOk op)
+    (hsz : w.q.nodes.size + 8 ≤ MAXN) (hop : ∀ m, op ≠ .refit m) : ∃ w', step fixRoot w op = some w' := by
+  cases op with
+  | insert id box =>
+    obtain ⟨q', e, _⟩ := inv_preUpdateOrInsert fixRoot w.q id h hok hsz
+    exact ⟨⟨q', fun d => if d = id then box else w.cur d⟩, by simp only [step, e, Option.map_some]⟩
+  | remove id =>
+    obtain ⟨q', b, e, _⟩ := inv_remove w.q id h
+    exact ⟨⟨q', w.cur⟩, by simp only [step, e, Option.map_some]⟩
+  | refit m => exact absurd rfl (hop m)
+
+end structural
+
+/-! non-vacuity: a concrete history over `ℚ` reaching the root split, and the invariant evaluated on it -/
+section examples
+open Model.Qbvh
+def unitBoxQ (x : ℚ) : Aabb3 ℚ := ⟨⟨x, 0, 0⟩, ⟨x + 1, 1, 1⟩⟩
+def hist17 : List (Op ℚ) :=
+  (List.range 17).map (fun i => Op.insert i (unitBoxQ (3 * i))) ++ [Op.remove 3, Op.refit 0, Op.insert 3 (unitBoxQ 100), Op.refit (1/2)]
+end examples
+
 end C08
